@@ -56,6 +56,9 @@ type Peer struct {
 	// Delay, if >0, is the virtual time the peer takes to answer each
 	// request (requests are answered one after the other).
 	Delay time.Duration
+	// OnSend, if set (in setup, before the peer serves), is called with
+	// every message right before it is written to the connection.
+	OnSend func(p *Peer, m wire.Message)
 
 	// Log of received request commands, and counters.
 	Recv       []string
@@ -152,6 +155,9 @@ func (p *Peer) SendRaw(b []byte) bool {
 }
 
 func (p *Peer) send(c net.Conn, m wire.Message) {
+	if f := p.OnSend; f != nil {
+		f(p, m)
+	}
 	p.wmu.Lock()
 	defer p.wmu.Unlock()
 	if h, ok := m.(*wire.MsgHeaders); ok {
@@ -197,14 +203,15 @@ func (p *Peer) lie(n *kit.Node) string {
 // FHash is the filter hash this peer claims for n.
 //
 // Lie kinds (LieCFKind): "omit" - a consistent lie, the served filter leaves
-// out an output script; "extra" - a consistent lie that cannot be refuted
+// out an output script; "empty" - the same with a filter that has no entries at
+// all; "extra" - a consistent lie that cannot be refuted
 // from the block (superset filter); "inconsistent" - a made-up hash while the
 // true filter is served; "unserved" - a made-up hash and no filter at all.
 func (p *Peer) FHash(n *kit.Node) chainhash.Hash {
 	switch p.lie(n) {
 	case "":
 		return n.FHash
-	case "omit", "extra":
+	case "omit", "empty", "extra":
 		if _, h, ok := p.Sim.W.FakeFilter(n, p.lie(n)); ok {
 			return h
 		}
@@ -440,7 +447,7 @@ func (p *Peer) Answer(msg wire.Message) {
 // FilterBytes is the serialized filter this peer serves for n (nil: none).
 func (p *Peer) FilterBytes(n *kit.Node) []byte {
 	switch p.lie(n) {
-	case "omit", "extra":
+	case "omit", "empty", "extra":
 		if d, _, ok := p.Sim.W.FakeFilter(n, p.lie(n)); ok {
 			return d
 		}
